@@ -152,6 +152,30 @@ type errText struct{}
 
 func (errText) MarshalText() ([]byte, error) { return nil, errors.New("text failed k=v") }
 
+// valErr / valText have value receivers: called through a nil pointer the method call itself
+// panics (a typed nil pointer in an interface, the usual shape of a "nil error that is not nil")
+type valErr struct{ msg string }
+
+func (e valErr) Error() string { return e.msg }
+
+type valText struct{ t string }
+
+func (v valText) MarshalText() ([]byte, error) { return []byte(v.t), nil }
+
+// nastyErr: a failing json.Marshaler whose error text needs JSON escaping, not Go escaping
+type nastyErr struct{}
+
+func (nastyErr) MarshalJSON() ([]byte, error) {
+	return nil, errors.New("bad \x00\a\v\x7f\xff \U000e0001 \"q\" input")
+}
+
+func wantStringOrNull(v voracle.JVal) string {
+	if v.Kind != 's' && v.Kind != 'z' {
+		return fmt.Sprintf("got %s, want a string or null", v)
+	}
+	return ""
+}
+
 type lvLeaf struct{ v any }
 
 func (l lvLeaf) LogValue() slog.Value { return slog.AnyValue(l.v) }
@@ -231,6 +255,9 @@ var Leaves = []*Leaf{
 		}
 		return ""
 	}, textOpen},
+	{"typed-nil-error-value-receiver", func() any { return (*valErr)(nil) }, wantStringOrNull, textOpen},
+	{"typed-nil-textmarshaler-value-receiver", func() any { return (*valText)(nil) }, wantStringOrNull, textOpen},
+	{"marshaler-err-nasty-text", func() any { return nastyErr{} }, wantErrString, textOpen},
 	{"lv-str", func() any { return lvLeaf{"deferred"} }, wantStr("deferred"), text("deferred")},
 	{"lv-int", func() any { return lvLeaf{int64(-5)} }, wantNum("-5"), text("-5")},
 	{"lv-lv-nan", func() any { return lvLeaf{lvLeaf{math.NaN()}} }, wantErrString, textNum("lv-lv-nan", math.NaN())},
